@@ -1635,6 +1635,8 @@ def parse_einsum_input(args, shapes=False, tuples=False, constants=None):
         eq, arrays = convert_from_interleaved(args)
     else:
         eq, *arrays = args
+        # like numpy, ignore whitespace in the equation
+        eq = eq.replace(" ", "")
 
     # prepare shapes for caching
     if shapes:
